@@ -263,6 +263,13 @@ fn find_words_unicode_break_properties<'a>(
     let stripped = strip_ansi_escape_sequences(line);
     let mut opportunities = unicode_linebreak::linebreaks(&stripped)
         .filter(|(idx, _)| {
+            // Skip the final break opportunity at the end of the
+            // text, we will add it below using &line[start..]; This
+            // ensures that we correctly include a trailing ANSI
+            // escape sequence.
+            if *idx == stripped.len() {
+                return false;
+            }
             #[allow(clippy::match_like_matches_macro)]
             match &stripped[..*idx].chars().next_back() {
                 // We suppress breaks at ‘-’ since we want to control
@@ -278,11 +285,6 @@ fn find_words_unicode_break_properties<'a>(
         })
         .collect::<Vec<_>>()
         .into_iter();
-
-    // Remove final break opportunity, we will add it below using
-    // &line[start..]; This ensures that we correctly include a
-    // trailing ANSI escape sequence.
-    opportunities.next_back();
 
     let mut start = 0;
     Box::new(std::iter::from_fn(move || {
